@@ -340,6 +340,42 @@ func main() {
 		}
 	}
 
+	// ---- the unexported twin logical.groupSignGenerator must be the same code as
+	// model.GroupSignGenerator (which the harness drives) up to locking
+	twin := func(file, recv string) map[string]string {
+		f := parsed[filepath.Join(cons, file)]
+		if f == nil {
+			die("twin: %s not parsed", file)
+		}
+		m := map[string]string{}
+		for _, name := range []string{"AddWitnessSign", "SignRecovered", "addWitnessForce", "genGroupSign"} {
+			fd := funcDecl(f, recv, name)
+			if fd == nil {
+				die("twin: %s.%s not found in %s", recv, name, file)
+			}
+			var parts []string
+			for _, st := range fd.Body.List {
+				t := show(st)
+				if strings.Contains(t, "gs.lock.") {
+					continue
+				}
+				parts = append(parts, t)
+			}
+			m[name] = strings.Join(parts, " ; ")
+		}
+		return m
+	}
+	tm := twin(filepath.Join("model", "group_sign.go"), "*GroupSignGenerator")
+	tl := twin(filepath.Join("logical", "round_sign_piece.go"), "*groupSignGenerator")
+	type twinFact struct {
+		Name string
+		Same bool
+	}
+	var twins []twinFact
+	for _, name := range []string{"AddWitnessSign", "SignRecovered", "addWitnessForce", "genGroupSign"} {
+		twins = append(twins, twinFact{name, tm[name] == tl[name]})
+	}
+
 	// ---- write Lean
 	var b strings.Builder
 	b.WriteString("/-! GENERATED by gen/cmd/c13facts from the go-rangers working tree; do not edit.\n")
@@ -379,6 +415,14 @@ func main() {
 			sep = ""
 		}
 		fmt.Fprintf(&s, "  ⟨%s, %s, %s, %v⟩%s\n", lq(x.File), lq(x.Func), lq(x.Args), x.Guarded, sep)
+	}
+	s.WriteString("]\n\n/-- method of logical.groupSignGenerator, and whether its body equals the one of\n    model.GroupSignGenerator up to the lock statements -/\ndef twinMethods : List (String × Bool) := [\n")
+	for i, x := range twins {
+		sep := ","
+		if i == len(twins)-1 {
+			sep = ""
+		}
+		fmt.Fprintf(&s, "  (%s, %v)%s\n", lq(x.Name), x.Same, sep)
 	}
 	s.WriteString("]\n\nend Rangers.Generated.C13Sites\n")
 	if err := os.WriteFile(filepath.Join(out, "C13Sites.lean"), []byte(s.String()), 0644); err != nil {
